@@ -32,7 +32,8 @@ def make_honest(rng, n, keys):
     out = []
     for _ in range(n):
         seed, pk = rng.choice(keys)
-        msg = vals.rb(rng, rng.choice([0, 1, 16, 40]))
+        # lengths around what an implementation might buffer (64, 128, 192, 256 bytes; minus the 64 bytes of R || A)
+        msg = vals.rb(rng, rng.choice([0, 1, 16, 40, 63, 64, 65, 127, 128, 129, 191, 192, 193, 200, 255, 256, 257, 300, 1000]))
         out.append(Entry(pk, msg, ref.ed_sign(seed, msg)))
     return out
 
@@ -40,7 +41,13 @@ def make_honest(rng, n, keys):
 def corrupt(rng, e, kind, keys):
     if kind == 'msg':
         m = bytearray(e.msg or b'\0')
-        m[rng.randrange(len(m))] ^= 1 << rng.randrange(8)
+        r_ = rng.random()
+        if r_ < 0.5:
+            m[rng.randrange(len(m))] ^= 1 << rng.randrange(8)
+        elif r_ < 0.8 or len(e.msg) < 2:
+            m = bytearray(e.msg) + bytearray(vals.rb(rng, rng.choice([1, 8, 64])))       # the signed message is only a prefix
+        else:
+            m = bytearray(e.msg[:-rng.choice([1, min(len(e.msg) - 1, 64)])])              # the signed message was longer
         n = Entry(e.key, bytes(m), e.sig)
     elif kind == 'key':
         while True:
